@@ -248,7 +248,7 @@ class Expr:
                 t = body.blocks[bi]["term"]
                 info = callee_info(t["callee"])
                 args = [self.operand(a, depth + 1) for a in t["args"]]
-                r = ("call", info["key"], info["def"], args, bi, [a.get("s") for a in info["targs"]])
+                r = ("call", info["key"], info["def"], args, bi, info["targs"])
             else:
                 r = self.rvalue(body.blocks[bi]["stmts"][si]["rv"], depth + 1)
         else:
@@ -336,11 +336,11 @@ def walk_expr(e):
         if not isinstance(x, tuple):
             continue
         yield x
-        for y in x[1:]:
+        for y in (x[1:5] if x[0] == "call" else x[1:]):
             if isinstance(y, tuple):
                 st.append(y)
             elif isinstance(y, list):
-                st.extend(y)
+                st.extend(z for z in y if isinstance(z, tuple))
 
 
 def strip_refs(e):
@@ -395,6 +395,12 @@ def show(e, depth=0):
         return "_%d" % e[1]
     if k == "fn":
         return "fn:" + e[1]
+    if k in ("try", "ok", "residual", "errprop"):
+        return "%s(%s)" % (k, show(e[1], d))
+    if k == "static":
+        return "static:" + short(e[1])
+    if k == "repeat":
+        return "[%s; %s]" % (show(e[1], d), e[2])
     return str(e[:2])
 
 
